@@ -126,43 +126,49 @@ def f_agg_or_window_over_constant(prog, idxs, ctx):
 
 
 def f_ungrouped_summarize_aggregates_dropped(prog, idxs, ctx):
-    """An ungrouped summarize whose aggregate columns are all overwritten / deselected afterwards
-    (within the same SELECT level)."""
+    """An ungrouped summarize whose aggregate columns are all overwritten / deselected afterwards within the
+    same SELECT level, or pruned because a later alias() turns the query into a subquery that does not need them."""
     steps = prog["steps"]
     grouped = {}
+    alive = {}  # handle -> set of aggregate column names of an ungrouped summarize still selected (None: n/a)
     for i in idxs:
         st = steps[i]
-        gin = grouped.get(st["in"], False)
         v = st["verb"]
+        gin = grouped.get(st["in"], False)
         grouped[st["out"]] = True if v == "group_by" else (False if v in ("ungroup", "summarize") else gin)
-        if v != "summarize" or gin:
+        cur = alive.get(st["in"])
+        if v == "summarize":
+            if not gin:
+                if not any(n.get("k") == "fn" and n["op"] in AGG for _nm, e in st["kw"] for n in walk(e)):
+                    return True  # no aggregate function at all: SELECT without aggregate
+                alive[st["out"]] = {n for n, _ in st["kw"]}
+            else:
+                alive[st["out"]] = None
             continue
-        alive = {n for n, _ in st["kw"]}
-        cur = st["out"]
-        for j in idxs:
-            if j <= i:
-                continue
-            s2 = steps[j]
-            if s2["in"] != cur:
-                continue
-            v2 = s2["verb"]
-            if v2 in ("alias", "summarize", "join", "union", "collect"):
-                break
-            if v2 == "mutate":
-                alive -= {n for n, _ in s2["kw"]}
-            elif v2 == "select":
-                alive &= {e.get("n") for e in s2["cols"]}
-            elif v2 == "drop":
-                alive -= {e.get("n") for e in s2["cols"]}
-            elif v2 == "rename":
-                for k, n in s2["map"]:
-                    old = k if isinstance(k, str) else k.get("n")
-                    if old in alive:
-                        alive.discard(old)
-                        alive.add(n)
-            if not alive:
-                return True
-            cur = s2["out"]
+        if cur is None:
+            alive[st["out"]] = None
+            continue
+        cur = set(cur)
+        if v == "alias":
+            return True  # the subquery only selects what later verbs need
+        if v in ("join", "union", "collect"):
+            alive[st["out"]] = None
+            continue
+        if v == "mutate":
+            cur -= {n for n, _ in st["kw"]}
+        elif v == "select":
+            cur &= {e.get("n") for e in st["cols"]}
+        elif v == "drop":
+            cur -= {e.get("n") for e in st["cols"]}
+        elif v == "rename":
+            for k, n in st["map"]:
+                old = k if isinstance(k, str) else k.get("n")
+                if old in cur:
+                    cur.discard(old)
+                    cur.add(n)
+        if not cur:
+            return True
+        alive[st["out"]] = cur
     return False
 
 
@@ -278,7 +284,19 @@ def f_mssql_offset_in_subquery(prog, idxs, ctx):
     return False
 
 
+def f_sqlite_case_of_temporal_literals(prog, idxs, ctx):
+    """A case expression (when/then or map) all of whose branch values are date / datetime literals."""
+    for i in idxs:
+        for n in walk(prog["steps"][i]):
+            if n.get("k") == "case":
+                vals = [v for _c, v in n["cases"]] + ([n["default"]] if n.get("default") is not None else [])
+                if vals and all(v.get("k") == "lit" and (v.get("ty") in ("date", "datetime") or v.get("v") is None) for v in vals) and any(v.get("ty") for v in vals):
+                    return True
+    return False
+
+
 FEATURES = {
+    "sqlite_case_of_temporal_literals": f_sqlite_case_of_temporal_literals,
     "mssql_offset_in_subquery": f_mssql_offset_in_subquery,
     "literal_with_pyformat_placeholder": f_literal_with_pyformat_placeholder,
     "sqlite_date_to_datetime_compared": f_sqlite_date_to_datetime_compared,
